@@ -1082,10 +1082,17 @@ def run_discord(case):
     x, meta = make_state(case["state"], dims)
     rAB = o_rdm(x, dims, [sa, sb])          # A = sysa (not measured), B = sysb (measured), in that order
     ref = o_discord(rAB)
-    if n == 2 and not case["explicit"] and (sa, sb) == (0, 1):
-        got = qu.quantum_discord(to_q(x))
-    else:
-        got = qu.quantum_discord(to_q(x), tuple(dims), sa, sb)
+    try:
+        if n == 2 and not case["explicit"] and (sa, sb) == (0, 1):
+            got = qu.quantum_discord(to_q(x))
+        else:
+            got = qu.quantum_discord(to_q(x), tuple(dims), sa, sb)
+    except ValueError as ex:
+        if "COBYLA" in str(ex) or "MAXFUN" in str(ex):
+            # explicit `raise ValueError(opt.message)` in quantum_discord: the library refuses to answer when its
+            # optimiser has not met tol=1e-12 within maxiter evaluations (counted; see notes/C20.md)
+            raise Reject("optimiser-not-converged: explicit ValueError(opt.message)")
+        raise
     got = real_scalar(got, "quantum_discord")
     tol = 1e-3
     err = abs(got - ref)
